@@ -72,7 +72,7 @@ Context {F : Type}.
 Variable pf : list N -> option F.
 Variable ff : F -> list N.
 
-Lemma reach_psv t st : reach st (snd (@parse_string_value F t st)).
+Lemma reach_psv t st : reach st (snd (parse_string_value t st)).
 Proof. unfold parse_string_value. destruct (go_unquote (plit t)); [apply R_refl|apply reach_add]. Qed.
 
 Lemma reach_pfv t st : reach st (snd (parse_float_value pf t st)).
@@ -101,7 +101,8 @@ Proof.
   split; [|split].
   - intros st v st' H. rewrite parse_value_S in H. unfold pv_body in H.
     destruct (pty (cur st)).
-    + destruct (_ || _); [injection H as _ <-; apply reach_next|].
+    + destruct (list_N_eqb _ lit_true); [injection H as _ <-; apply reach_next|].
+      destruct (list_N_eqb _ lit_false); [injection H as _ <-; apply reach_next|].
       destruct (list_N_eqb _ _); injection H as _ <-; [apply reach_next|].
       eapply reach_trans; [apply reach_next|apply reach_add].
     + eapply parse_ident_list_reach; eauto.
@@ -139,9 +140,13 @@ Proof.
     destruct (see_op [[125%N]] st); [injection H as _ <-; apply R_refl|].
     destruct (negb _); [injection H as _ <-; apply reach_add|].
     set (kvst := if ttype_eqb (pty (cur st)) TString
-                 then parse_string_value (cur st) (p_next st) else (BNone, p_next st)) in *.
+                 then let '(bs, st2) := parse_string_value (cur st) (p_next st) in
+                      (KStr (plit (cur st)) bs, st2)
+                 else (KIdent (plit (cur st)), p_next st)) in *.
     assert (Hk : reach (p_next st) (snd kvst)).
-    { subst kvst. destruct (ttype_eqb _ _); [apply reach_psv|apply R_refl]. }
+    { subst kvst. destruct (ttype_eqb _ _); [|apply R_refl].
+      pose proof (reach_psv (cur st) (p_next st)) as Hr.
+      destruct (parse_string_value (cur st) (p_next st)). exact Hr. }
     destruct kvst as [kv st2]. cbn [snd] in Hk.
     destruct (parse_value pf f (snd (expect_op [58%N] st2))) as [[v st4]|] eqn:E; [|discriminate].
     assert (H4 : reach st st4).
@@ -172,7 +177,7 @@ Qed.
 Lemma parse_value_reach f st v st' : parse_value pf f st = Some (v, st') -> reach st st'.
 Proof. apply (proj1 (parse_all_reach f)). Qed.
 
-Lemma parse_type_name_reach st : reach st (snd (@parse_type_name F st)).
+Lemma parse_type_name_reach st : reach st (snd (parse_type_name st)).
 Proof.
   unfold parse_type_name. destruct (pty (cur st)); try apply reach_add.
   - apply reach_next.
